@@ -14,6 +14,7 @@ import (
 	"net/url"
 	"strings"
 	"sync"
+	"sync/atomic"
 )
 
 // Reply is what a handler decides to send.
@@ -28,6 +29,9 @@ type Reply struct {
 	Err       error // transport error instead of a response
 	BodyErrAt int   // >0: body read fails after this many bytes
 	Stream    int64 // >0: body is this many zero bytes, streamed
+	// Endless: the body (after Body's bytes) never ends - zeros for as long as
+	// anyone reads, until it is closed
+	Endless bool
 	// ContentLength != 0 is announced as the response's length whatever the
 	// body really holds (0 announces "unknown")
 	ContentLength int64
@@ -192,6 +196,29 @@ func (b *errBody) Read(p []byte) (int, error) {
 }
 func (b *errBody) Close() error { return nil }
 
+// endlessBody never reports EOF; Close ends it.
+type endlessBody struct {
+	prefix []byte
+	closed atomic.Bool
+}
+
+func (e *endlessBody) Read(p []byte) (int, error) {
+	if e.closed.Load() {
+		return 0, errors.New("netsim: read on closed body")
+	}
+	if len(e.prefix) > 0 {
+		n := copy(p, e.prefix)
+		e.prefix = e.prefix[n:]
+		return n, nil
+	}
+	for i := range p {
+		p[i] = 0
+	}
+	return len(p), nil
+}
+
+func (e *endlessBody) Close() error { e.closed.Store(true); return nil }
+
 type zeroBody struct {
 	prefix []byte // sent first (counts towards the total)
 	left   int64
@@ -322,6 +349,8 @@ func (s *Sim) RoundTrip(hr *http.Request) (resp *http.Response, err error) {
 	}
 	var rc io.ReadCloser
 	switch {
+	case rep.Endless:
+		rc = &endlessBody{prefix: append([]byte{}, rep.Body...)}
 	case rep.Stream > 0:
 		rc = &zeroBody{prefix: append([]byte{}, rep.Body...), left: rep.Stream}
 	case rep.BodyErrAt > 0:
